@@ -374,7 +374,7 @@ fn tri_point(ctx: &Ctx, c: &Case, obs: &mut Obs) -> PropResult {
         obs.class("tolerance scaled by measured conditioning");
     } else {
         obs.err(match tier { Tier::E => "commutation, tier E", Tier::M => "commutation, tier M", Tier::S => "commutation, tier S" }, d);
-        obs.err_with(label, d, || c.clone());
+        obs.err(label, d);
     }
     ensure!(d <= lim, "{} of {:?}: direct {:?}, step by step {:?} (intermediate {:?}); distance {:e} in the target embedding, allowed {:e}", label, x, direct64, via, mid64, d, lim);
     Ok(())
